@@ -354,6 +354,9 @@ func CheckC07(v *View, st Stats) []Violation {
 	return out
 }
 
+// PodBuiltFrom: the pod runs the containers and carries exactly the annotations of the template.
+func PodBuiltFrom(p *corev1.Pod, t *corev1.PodTemplateSpec) bool { return podBuiltFrom(p, t) }
+
 func podBuiltFrom(p *corev1.Pod, t *corev1.PodTemplateSpec) bool {
 	a, _ := json.Marshal(p.Spec.Containers)
 	b, _ := json.Marshal(t.Spec.Containers)
